@@ -253,6 +253,52 @@ def boundary_items(rnd, quick):
                               0xFB103201, 0xFB103231, 0xFB303201, 0xFB303211, 0xFB203201, 0xFB403201, 0xFB503201, 0xFB503211,
                               0xFB603201, 0xFB90F2F1, 0xFBB0F2F1):
                         items.append((True, w, {0: x, 1: y, 2: rnd.choice(B32), 3: rnd.choice(B32)}, 'mulgrid'))
+        # dual and halfword multiply-accumulates on packed boundary halfwords (incl. all four lanes 0x8000, where the
+        # product sum alone is 2^31): accumulators placed on the signed-overflow boundary of the exact sum
+        H = [0x8000, 0x7FFF, 0xFFFF] if quick else [0x8000, 0x7FFF, 0xFFFF, 0x0001, 0x8001]
+        packed = [(a << 16) | b for a in H for b in H]
+
+        def s16(v):
+            return v - 0x10000 if v & 0x8000 else v
+        if not thumb:
+            duals = [(0xE7023110, 'ad', 0), (0xE7023130, 'ad', 1), (0xE7023150, 'sd', 0), (0xE7023170, 'sd', 1),
+                     (0xE702F110, 'ad', 0), (0xE702F130, 'ad', 1), (0xE702F150, 'sd', 0), (0xE702F170, 'sd', 1)]
+            longs = [0xE7423110, 0xE7423130, 0xE7423150, 0xE7423170]
+            halfs = [(0xE1023180 | (xy << 5), xy & 1, xy >> 1) for xy in range(4)]
+            wides = [(0xE1223180 | (y << 6), y) for y in range(2)]
+        else:
+            duals = [(0xFB203201, 'ad', 0), (0xFB203211, 'ad', 1), (0xFB403201, 'sd', 0), (0xFB403211, 'sd', 1),
+                     (0xFB20F201, 'ad', 0), (0xFB20F211, 'ad', 1), (0xFB40F201, 'sd', 0), (0xFB40F211, 'sd', 1)]
+            longs = [0xFBC032C1, 0xFBC032D1, 0xFBD032C1, 0xFBD032D1]
+            halfs = [(0xFB103201 | (n << 5) | (m << 4), n, m) for n in range(2) for m in range(2)]
+            wides = [(0xFB303201 | (y << 4), y) for y in range(2)]
+
+        def accs(p):
+            out = {0, 0xFFFFFFFF}
+            for a in ((1 << 31) - 1 - p, (1 << 31) - p, -(1 << 31) - p, -(1 << 31) - p - 1):
+                if -(1 << 31) <= a < (1 << 31):
+                    out.add(a & 0xFFFFFFFF)
+            return sorted(out)
+        for x in packed:
+            for y in packed:
+                for (w, kind, swap) in duals:
+                    yl, yh = (y >> 16, y & 0xFFFF) if swap else (y & 0xFFFF, y >> 16)
+                    p1, p2 = s16(x & 0xFFFF) * s16(yl), s16(x >> 16) * s16(yh)
+                    for a in accs(p1 + p2 if kind == 'ad' else p1 - p2):
+                        items.append((thumb, w, {0: x, 1: y, 3: a}, 'dualmul'))
+                for w in longs:
+                    items.append((thumb, w, {0: x, 1: y, 2: rnd.choice(B32), 3: rnd.choice(B32)}, 'dualmul-long'))
+                for (w, nh, mh) in halfs:
+                    p = s16((x >> 16) if nh else x & 0xFFFF) * s16((y >> 16) if mh else y & 0xFFFF)
+                    for a in accs(p):
+                        items.append((thumb, w, {0: x, 1: y, 3: a}, 'halfmul'))
+        for x in B32:
+            for y in packed:
+                for (w, mh) in wides:
+                    sx = x - (1 << 32) if x >> 31 else x
+                    p = (sx * s16((y >> 16) if mh else y & 0xFFFF)) >> 16
+                    for a in accs(p):
+                        items.append((thumb, w, {0: x, 1: y, 3: a}, 'widemul'))
         # long multiply-accumulate whose 64-bit sum wraps to 0 / -1 / 1 (Z, N of the truncated result)
         for x in B32:
             for y in B32:
@@ -292,6 +338,8 @@ def grid_task(task):
         st, pc = S.prep(g, rnd, dict(task, modes='usr'), thumb, 0, k)
         for r, v in regs.items():
             st['R']['R%dusr' % r] = limbs(v)
+        if k % 4 and isinstance(st.get('cpsr'), list):
+            st['cpsr'] = [st['cpsr'][0] & ~0x0800, st['cpsr'][1]]          # sticky Q clear 3 times in 4: a wrongly set Q is visible
         C.put_instr(st, pc, w, thumb)
         g.add(st, {'n': 'Step'}, meta={'gen': label, 'word': w, 'thumb': thumb})
     return [g]
